@@ -178,9 +178,9 @@ func (nc NodeCase) Admissible() *Reject {
 	return nil
 }
 
-// podTerms returns, per alternative (OR-ed required term, or one implicit alternative), the primitives per label key
+// PodTerms returns, per alternative (OR-ed required term, or one implicit alternative), the primitives per label key
 // including the nodeSelector entries.
-func podTerms(pod *corev1.Pod) []map[string][]Prim {
+func PodTerms(pod *corev1.Pod) []map[string][]Prim {
 	base := map[string][]Prim{}
 	for k, v := range pod.Spec.NodeSelector {
 		base[k] = append(base[k], Prim{Op: "In", Values: []string{v}})
@@ -224,7 +224,7 @@ func podTerms(pod *corev1.Pod) []map[string][]Prim {
 // empty, or a complement with exclusions, were (wrongly) satisfied by an absent label - the documented known defect of
 // the requirement representation (C12). Used only to attribute an affinity mismatch to that root cause.
 func MatchesUnderPresenceLoss(pod *corev1.Pod, labels map[string]string, extra map[string][]Prim) bool {
-	for _, term := range podTerms(pod) {
+	for _, term := range PodTerms(pod) {
 		ok := true
 		for k, prims := range term {
 			prims = append(append([]Prim{}, prims...), extra[k]...)
